@@ -29,6 +29,8 @@ func c04Trees() (src, dst tm.Tree) {
 	basis := genData(famHash, 2100, 40)
 	changed := append([]byte{}, basis...)
 	copy(changed[700:], genData(famHash, 400, 41))
+	grown := genData(famHash, 700+100, 50)
+	newend := genData(famHash, 700+200, 52)
 	src = tm.Tree{
 		tm.D("sub", 0o755, tm.Past),
 		tm.File("new", genData(famText, 60, 42), 0o644, tm.Past),
@@ -36,6 +38,9 @@ func c04Trees() (src, dst tm.Tree) {
 		tm.L("link", "new-target"),
 		tm.L("sub/newlink", "fresh"),
 		tm.File("zz-last", genData(famHash, 90, 44), 0o644, tm.Past),
+		// files whose leading full blocks are unchanged: appended data, and a shorter, different end
+		tm.File("grown", append(append([]byte{}, grown...), genData(famHash, 90, 51)...), 0o644, tm.Past),
+		tm.File("newend", append(append([]byte{}, newend[:700]...), genData(famHash, 60, 53)...), 0o644, tm.Past),
 		// a directory the transfer itself creates, with new files inside
 		tm.D("newdir", 0o755, tm.Past),
 		tm.File("newdir/fresh", genData(famHash, 80, 47), 0o644, tm.Past),
@@ -47,6 +52,8 @@ func c04Trees() (src, dst tm.Tree) {
 		tm.File("sub/delta", basis, 0o640, tm.Past-9),
 		tm.L("link", "old-target"),
 		tm.File("zz-last", genData(famHash, 91, 45), 0o644, tm.Past-9),
+		tm.File("grown", grown, 0o644, tm.Past-9),
+		tm.File("newend", newend, 0o644, tm.Past-9),
 	}
 	return
 }
@@ -258,9 +265,13 @@ func c04BuildScenarios(tier string) core.Source {
 			// the daemon pull differs from the library pull only in its handshake
 			cases = append(cases, c04Scenario{arr: arr, c2s: sched.Inf, s2c: sched.Inf, bound: 1, faults: true, chunking: arr != drive.DaemonPull || tier == "thorough", shard: k, nshards: 3})
 		}
-		// small capacity: the receiver is frozen every 7 bytes, the connection is cut at each of those offsets
+		// small capacity: the receiver is frozen every 11 bytes (thorough: 7 and 1), the connection is cut at each of those offsets
+		small := 11
+		if tier == "thorough" {
+			small = 7
+		}
 		for k := 0; k < 12; k++ {
-			cases = append(cases, c04Scenario{arr: arr, c2s: 7, s2c: 7, bound: 1, faults: true, shard: k, nshards: 12})
+			cases = append(cases, c04Scenario{arr: arr, c2s: small, s2c: small, bound: 1, faults: true, shard: k, nshards: 12})
 		}
 		cases = append(cases, c04Scenario{arr: arr, c2s: 0, s2c: 0, bound: 1, faults: true})
 		cases = append(cases, c04Scenario{arr: arr, c2s: sched.Inf, s2c: sched.Inf, bound: 1, faults: true, treeB: true})
@@ -277,7 +288,7 @@ func init() {
 	core.Register(&core.Prop{
 		ID:    "C04",
 		Level: "model_checking",
-		Rule: "multi-file sessions (new file, delta-replaced file, file replacing a symlink, replaced symlink, new symlink, replaced file) as library pull, daemon pull and daemon upload under the controlled scheduler: the state invariant is evaluated at every scheduling point (receiver frozen at a transport gate; with capacity 7 that is every 7 bytes, thorough: every byte) of every execution with <=1 (thorough <=2) deviations, and the connection is cut at every scheduling point (one extra execution per point). " +
+		Rule: "multi-file sessions (new file, delta-replaced file, file with appended data, file with a shorter different end, file replacing a symlink, replaced symlink, new symlink, replaced file) as library pull, daemon pull and daemon upload under the controlled scheduler: the state invariant is evaluated at every scheduling point (receiver frozen at a transport gate; with capacity 11 that is every 11 bytes, thorough: every 7 bytes and every byte) of every execution with <=1 (thorough <=2) deviations, and the connection is cut at every scheduling point (one extra execution per point). " +
 			"invariant: every listed path holds its complete previous content (or is still absent) or the complete new content, link targets are old or new, anything else on disk has a renameio temp name; after a cut the session must not report success with an incomplete destination, and once both ends returned and the connection is closed no temp file remains; inotify: the kernel event trace of the destination directories during a free-running session in all 5 arrangements shows no in-place write, delete, move-away or create-then-fill on any listed name. states = invariant evaluations, transitions = transport operations",
 		Assum: []string{"instants between two transport operations of the receiver are covered by the inotify part: the kernel's event log of the destination directories must show only rename-into-place events on listed names", "SIGKILL at an arbitrary instant is modelled by freezing the receiver at every transport gate"},
 		Parts: func(tier string) []core.Part {
